@@ -272,6 +272,10 @@ class MetadorDataset(MetadorNode):
     _self_RO_FORBIDDEN = {"resize", "make_scale", "write_direct", "flush"}
 
     def __getattr__(self, key):
+        if hasattr(type(self), key):
+            # a property of this wrapper refused the access (UnsupportedOperationError is
+            # an AttributeError, so Python asks here next) -> do not fall back to raw node
+            raise UnsupportedOperationError(key)
         if self.acl[NodeAcl.read_only] and key in self._self_RO_FORBIDDEN:
             self._guard_acl(NodeAcl.read_only, key)
         if self.acl[NodeAcl.skel_only] and key == "get":
